@@ -69,10 +69,10 @@ var errOther = errors.New("scripted reader failure")
 
 // scriptReader returns the scripted results, then (0, EOF); data is position-coded
 type scriptReader struct {
-	items []ScriptItem
-	i     int
-	pos   int
-	seed  int64
+	items  []ScriptItem
+	i      int
+	pos    int
+	seed   int64
 	sticky error
 }
 
@@ -426,7 +426,9 @@ func runCarrierCase(c *CarrierCase) *CarrierResult {
 			k := 1 + rnd.Intn(len(data)-1)
 			record := append(append([]byte(nil), data[:k]...), []byte("LIVE-DATA-BEHIND-THE-FIRST-SEGMENT")...)
 			keep := append([]byte(nil), record...)
-			mr := func() io.Reader { return io.MultiReader(bytes.NewReader(record[:k]), bytes.NewReader(append([]byte(nil), data[k:]...))) }
+			mr := func() io.Reader {
+				return io.MultiReader(bytes.NewReader(record[:k]), bytes.NewReader(append([]byte(nil), data[k:]...)))
+			}
 			if wt, ok := mr().(io.WriterTo); ok {
 				if b, err := utils.StealBytes(wt); err != nil || !bytes.Equal(b, data) {
 					fail("stealbytes/segmented", fmt.Sprintf("utils.StealBytes(two-segment reader, %d bytes) returned %d bytes, err %v", len(data), len(b), err))
